@@ -185,7 +185,7 @@ pub fn run_c06(ctx: &mut Ctx) {
         rep.distinct(0x4_0000_0000 ^ (len as u64) << 16 ^ (b.iter().take_while(|x| **x == 0).count() as u64));
     }
     // strings
-    c06_strings(rep, &mut r, budget);
+    c06_strings(rep, &mut r, budget, level);
     // typed accessors on Packet
     c06_accessors(rep, &mut r, budget / 4 + 50);
     rep.floor("roundtrip_OptionValueU16", 100);
@@ -236,7 +236,7 @@ const BAD_UTF8: &[&[u8]] = &[
 ];
 
 /// every "special" code point at the start, in the middle and at the end of a short string
-fn special_strings() -> Vec<String> {
+fn special_strings(level: u32) -> Vec<String> {
     let specials = [0u32, 0x7f, 0x80, 0x7ff, 0x800, 0xffff, 0x10000, 0x10ffff, 0xfeff, 0xfffe, 0xfffd, 0x2028, 0x2029, 0x85, 0xa0, 0x3000, 0x200b, 0x200d, 0x200e, 0x202e, 0x301, 0xe0001, 0xfdd0, 0x9, 0xa, 0xd, 0x20, 0x22, 0x5c];
     let mut out = Vec::new();
     for c in specials {
@@ -251,11 +251,20 @@ fn special_strings() -> Vec<String> {
         out.push(format!("{}{}", ch, ch));
         out.push(format!("{}é{}", ch, ch));
     }
+    // long strings: on both sides of the option-length thresholds (13, 269), of the message size
+    // limits and of what one option instance can carry on the wire (65535 + 269 bytes) - a stored
+    // value is a stored value whatever a later serialisation would say about it
+    // (the interpreter lane keeps to the short ones)
+    let lens: &[usize] = if level == 0 { &[12, 13, 269] } else { &[12, 13, 14, 268, 269, 270, 1034, 1035, 1280, 1281, 65_535, 65_536, 65_803, 65_804, 65_805, 70_000, 200_000] };
+    for &len in lens {
+        out.push("a".repeat(len));
+        out.push(format!("é{}", "b".repeat(len - 2)));
+    }
     out
 }
 
-fn c06_strings(rep: &mut Report, r: &mut Rng, budget: u64) {
-    let specials = special_strings();
+fn c06_strings(rep: &mut Report, r: &mut Rng, budget: u64, level: u32) {
+    let specials = special_strings(level);
     for i in 0..budget.min(200_000) + specials.len() as u64 {
         rep.eval();
         let s = if (i as usize) < specials.len() { specials[i as usize].clone() } else { random_string(r) };
